@@ -1,1 +1,773 @@
-//! (module to be written)
+//! kp: `hpack` (tex.web §649-667) with exact rationals, and line breaking *by definition*
+//! (§813-875): legal breakpoints §866-869, the width of a line between two breaks as TeX's
+//! `try_break` measures it (§823, §837-844), badness and fitness class §851-853, demerits §859,
+//! the looseness rule §875 – evaluated by brute force over every sequence of legal breakpoints.
+//!
+//! Nothing here depends on the repository. All arithmetic is `i64`.
+
+use crate::arith;
+
+/// §138: `null_flag`, the value of a running rule dimension.
+pub const NULL_FLAG: i64 = -(1 << 30);
+/// §833
+pub const AWFUL_BAD: i64 = 0o7777777777;
+/// §157
+pub const INF_PENALTY: i64 = 10000;
+pub const EJECT_PENALTY: i64 = -10000;
+/// §817 fitness classes
+pub const VERY_LOOSE: u8 = 0;
+pub const LOOSE: u8 = 1;
+pub const DECENT: u8 = 2;
+pub const TIGHT: u8 = 3;
+
+#[derive(Clone, Copy, Debug, Default, PartialEq, Eq)]
+pub struct GlueSpec {
+    pub w: i64,
+    pub stretch: i64,
+    /// 0 normal, 1 fil, 2 fill, 3 filll (§150)
+    pub stretch_order: usize,
+    pub shrink: i64,
+    pub shrink_order: usize,
+}
+
+/// The node kinds of a horizontal list that the two models look at.
+#[derive(Clone, Debug, PartialEq, Eq)]
+pub enum Node {
+    /// `char_node` §134 or `ligature_node` §143 (its `lig_char`): the character's metrics.
+    Char { w: i64, h: i64, d: i64 },
+    /// `hlist_node` / `vlist_node` §135-137.
+    Box { w: i64, h: i64, d: i64, shift: i64 },
+    /// `rule_node` §138; a running dimension is `NULL_FLAG`.
+    Rule { w: i64, h: i64, d: i64 },
+    /// `kern_node` §155; `explicit` = subtype `explicit`.
+    Kern { w: i64, explicit: bool },
+    /// `math_node` §147; `after` = subtype `after`.
+    Math { w: i64, after: bool },
+    Glue(GlueSpec),
+    Penalty(i64),
+    /// `disc_node` §145. The `replace` nodes follow the discretionary in the main list.
+    Disc { pre: Vec<Node>, post: Vec<Node>, replace: usize },
+}
+
+impl Node {
+    /// Width of a node that is allowed inside a discretionary list or among the replaced nodes
+    /// (§841, §842, §870, §871: char, ligature, hlist, vlist, rule, kern; anything else is `confusion`).
+    pub fn disc_width(&self) -> i64 {
+        match self {
+            Node::Char { w, .. } | Node::Box { w, .. } | Node::Rule { w, .. } | Node::Kern { w, .. } => *w,
+            _ => 0,
+        }
+    }
+}
+
+// ------------------------------------------------------------------------------------------ hpack
+
+#[derive(Clone, Copy, Debug, PartialEq, Eq)]
+pub enum Pack {
+    /// `hpack(p, w, exactly)`
+    Exactly(i64),
+    /// `hpack(p, w, additional)`
+    Additional(i64),
+}
+
+/// `glue_sign` §135
+#[derive(Clone, Copy, Debug, PartialEq, Eq)]
+pub enum Sign {
+    Normal,
+    Stretching,
+    Shrinking,
+}
+
+/// `glue_set` as an exact value. TeX stores a float; every value it ever stores is one of these.
+#[derive(Clone, Copy, Debug, PartialEq, Eq)]
+pub enum Set {
+    /// `set_glue_ratio_zero`
+    Zero,
+    /// `unfloat(num/den)`, `den != 0`
+    Ratio { num: i64, den: i64 },
+    /// `set_glue_ratio_one` (overfull box, §664)
+    One,
+}
+
+#[derive(Clone, Debug, PartialEq, Eq)]
+pub struct Packed {
+    pub width: i64,
+    pub height: i64,
+    pub depth: i64,
+    /// natural width `x` of §649 before the target is applied
+    pub natural: i64,
+    pub total_stretch: [i64; 4],
+    pub total_shrink: [i64; 4],
+    pub order: usize,
+    pub sign: Sign,
+    pub set: Set,
+    /// the condition of §664 under which TeX sets the ratio to 1.0 and (subject to \hfuzz) reports
+    /// an overfull box
+    pub overfull: bool,
+}
+
+impl Packed {
+    /// The amount by which the glue of the box changes in total: sum over the glue nodes of
+    /// (ratio × stretch) resp. −(ratio × shrink) at the box's glue order, as an exact rational
+    /// (numerator, denominator). §625: only glue of order `glue_order` moves.
+    pub fn change(&self) -> (i64, i64) {
+        let (num, den) = match self.set {
+            Set::Zero => (0, 1),
+            Set::One => (1, 1),
+            Set::Ratio { num, den } => (num, den),
+        };
+        match self.sign {
+            Sign::Normal => (0, 1),
+            Sign::Stretching => (num * self.total_stretch[self.order], den),
+            Sign::Shrinking => (-num * self.total_shrink[self.order], den),
+        }
+    }
+}
+
+/// §649 `hpack`.
+pub fn hpack(list: &[Node], spec: Pack) -> Packed {
+    // §650
+    let (mut h, mut d, mut x) = (0i64, 0i64, 0i64);
+    let mut total_stretch = [0i64; 4];
+    let mut total_shrink = [0i64; 4];
+    // §651
+    for p in list {
+        match p {
+            // §654 (and §652: a ligature is treated like its character)
+            Node::Char { w, h: ch, d: cd } => {
+                x += w;
+                if *ch > h {
+                    h = *ch;
+                }
+                if *cd > d {
+                    d = *cd;
+                }
+            }
+            // §653; rules have no shift
+            Node::Box { w, h: bh, d: bd, shift } => {
+                x += w;
+                if bh - shift > h {
+                    h = bh - shift;
+                }
+                if bd + shift > d {
+                    d = bd + shift;
+                }
+            }
+            Node::Rule { w, h: rh, d: rd } => {
+                x += w;
+                if *rh > h {
+                    h = *rh;
+                }
+                if *rd > d {
+                    d = *rd;
+                }
+            }
+            // §656 (leaders are outside the model)
+            Node::Glue(g) => {
+                x += g.w;
+                total_stretch[g.stretch_order] += g.stretch;
+                total_shrink[g.shrink_order] += g.shrink;
+            }
+            // "kern_node, math_node: x := x + width(p)"
+            Node::Kern { w, .. } | Node::Math { w, .. } => x += w,
+            // "othercases do_nothing": penalty and discretionary nodes
+            Node::Penalty(_) | Node::Disc { .. } => {}
+        }
+    }
+    let natural = x;
+    // §657
+    let w = match spec {
+        Pack::Exactly(w) => w,
+        Pack::Additional(a) => x + a,
+    };
+    let x = w - x;
+    let mut out = Packed { width: w, height: h, depth: d, natural, total_stretch, total_shrink, order: 0, sign: Sign::Normal, set: Set::Zero, overfull: false };
+    if x == 0 {
+        return out;
+    }
+    if x > 0 {
+        // §658, §659
+        let o = (1..4).rev().find(|o| total_stretch[*o] != 0).unwrap_or(0);
+        out.order = o;
+        if total_stretch[o] != 0 {
+            out.sign = Sign::Stretching;
+            out.set = Set::Ratio { num: x, den: total_stretch[o] };
+        }
+    } else {
+        // §664, §665
+        let o = (1..4).rev().find(|o| total_shrink[*o] != 0).unwrap_or(0);
+        out.order = o;
+        if total_shrink[o] != 0 {
+            out.sign = Sign::Shrinking;
+            out.set = Set::Ratio { num: -x, den: total_shrink[o] };
+        }
+        if total_shrink[o] < -x && o == 0 && !list.is_empty() {
+            out.overfull = true;
+            out.set = Set::One; // the sign stays as it was set above
+        }
+    }
+    out
+}
+
+// ------------------------------------------------------------------------------- line breaking
+
+/// The six quantities of §823: width, stretch of the four orders, shrink.
+#[derive(Clone, Copy, Debug, Default, PartialEq, Eq)]
+pub struct W6 {
+    pub w: i64,
+    pub st: [i64; 4],
+    pub sh: i64,
+}
+impl W6 {
+    pub fn add(&mut self, o: &W6, sign: i64) {
+        self.w += sign * o.w;
+        for i in 0..4 {
+            self.st[i] += sign * o.st[i];
+        }
+        self.sh += sign * o.sh;
+    }
+    pub fn of_glue(g: &GlueSpec) -> W6 {
+        // §825 check_shrinkage: infinite shrink is an error in a paragraph; the model's domain is
+        // finite shrink, so the shrink goes to the single shrink component whatever the order says.
+        let mut x = W6 { w: g.w, sh: g.shrink, ..Default::default() };
+        x.st[g.stretch_order] = g.stretch;
+        x
+    }
+}
+
+/// The parameters `line_break` reads (§236, §247) – only those that influence the choice of breaks.
+#[derive(Clone, Debug)]
+pub struct Params {
+    pub line_penalty: i64,
+    pub hyphen_penalty: i64,
+    pub ex_hyphen_penalty: i64,
+    pub adj_demerits: i64,
+    pub double_hyphen_demerits: i64,
+    pub final_hyphen_demerits: i64,
+    pub looseness: i64,
+    pub left_skip: GlueSpec,
+    pub right_skip: GlueSpec,
+    /// added to `background[2]` (§863, third pass)
+    pub emergency_stretch: i64,
+}
+
+/// A legal breakpoint: index of the node in the list (`list.len()` for the final break of §873),
+/// the penalty `pi` after the normalisation at the top of `try_break` (§831), and `break_type`.
+#[derive(Clone, Copy, Debug, PartialEq, Eq)]
+pub struct Bp {
+    pub idx: usize,
+    pub penalty: i64,
+    pub hyph: bool,
+}
+
+/// §148 `precedes_break` extended the way §868 uses it on `prev_p`.
+fn glue_may_break_after(prev: &Node) -> bool {
+    match prev {
+        // is_char_node(prev_p), or type(prev_p) < math_node
+        Node::Char { .. } | Node::Box { .. } | Node::Rule { .. } | Node::Disc { .. } => true,
+        // (type(prev_p) = kern_node) and (subtype(prev_p) <> explicit)
+        Node::Kern { explicit, .. } => !explicit,
+        Node::Math { .. } | Node::Glue(_) | Node::Penalty(_) => false,
+    }
+}
+
+/// §863, §866-869, §873: the calls of `try_break` that survive §831.
+pub fn breakpoints(list: &[Node], p: &Params) -> Vec<Bp> {
+    let n = list.len();
+    let mut out = vec![];
+    let mut push = |idx: usize, pi: i64, hyph: bool| {
+        // §831: if abs(pi) >= inf_penalty then if pi > 0 then return else pi := eject_penalty
+        if pi.abs() >= INF_PENALTY {
+            if pi > 0 {
+                return;
+            }
+            out.push(Bp { idx, penalty: EJECT_PENALTY, hyph });
+        } else {
+            out.push(Bp { idx, penalty: pi, hyph });
+        }
+    };
+    let mut auto_breaking = true;
+    // §863: prev_p := cur_p, "glue at beginning is not a legal breakpoint"
+    let mut prev: Option<usize> = None;
+    let mut i = 0;
+    while i < n {
+        match &list[i] {
+            Node::Char { .. } | Node::Box { .. } | Node::Rule { .. } => {}
+            Node::Glue(_) => {
+                // §868
+                if auto_breaking {
+                    if let Some(pi) = prev {
+                        if glue_may_break_after(&list[pi]) {
+                            push(i, 0, false);
+                        }
+                    }
+                }
+            }
+            Node::Kern { explicit, .. } => {
+                // kern_break (§866)
+                if *explicit && auto_breaking && matches!(list.get(i + 1), Some(Node::Glue(_))) {
+                    push(i, 0, false);
+                }
+            }
+            Node::Math { after, .. } => {
+                auto_breaking = *after;
+                if auto_breaking && matches!(list.get(i + 1), Some(Node::Glue(_))) {
+                    push(i, 0, false);
+                }
+            }
+            Node::Penalty(pi) => push(i, *pi, false),
+            Node::Disc { pre, replace, .. } => {
+                // §869: the replaced nodes are passed over, and prev_p is the discretionary
+                let pi = if pre.is_empty() { p.ex_hyphen_penalty } else { p.hyphen_penalty };
+                push(i, pi, true);
+                prev = Some(i);
+                i += 1 + replace;
+                continue;
+            }
+        }
+        prev = Some(i);
+        i += 1;
+    }
+    // §873: try_break(eject_penalty, hyphenated)
+    out.push(Bp { idx: n, penalty: EJECT_PENALTY, hyph: true });
+    out
+}
+
+/// What the main loop of `line_break` adds to `act_width` for a node (§866-871).
+fn act_width_of(node: &Node) -> W6 {
+    match node {
+        Node::Char { w, .. } | Node::Box { w, .. } | Node::Rule { w, .. } | Node::Kern { w, .. } | Node::Math { w, .. } => W6 { w: *w, ..Default::default() },
+        Node::Glue(g) => W6::of_glue(g),
+        Node::Penalty(_) | Node::Disc { .. } => W6::default(),
+    }
+}
+
+/// One line-breaking problem with everything needed to evaluate any sequence of breaks.
+pub struct Oracle {
+    pub bps: Vec<Bp>,
+    /// `meas[a][b]`: the six measures of the line from break `a-1` (`a = 0`: paragraph start) to
+    /// break `b` (index into `bps`), i.e. γ + β(b) − α(a) in the notation of §822.
+    pub meas: Vec<Vec<W6>>,
+    pub widths: Vec<i64>,
+    pub threshold: i64,
+    pub params: Params,
+    n: usize,
+}
+
+/// Result of the exhaustive enumeration.
+#[derive(Clone, Debug, Default)]
+pub struct Brute {
+    /// number of feasible complete sequences
+    pub feasible: u64,
+    /// minimal total demerits per number of lines
+    pub per_count: std::collections::BTreeMap<usize, i64>,
+    /// one sequence (node indices) achieving the overall minimum
+    pub best: Option<(i64, Vec<usize>)>,
+    /// number of sequences achieving the overall minimum
+    pub best_ties: u64,
+    /// some feasible sequences have different totals
+    pub totals_differ: bool,
+    /// some breakpoint is reached by feasible partial sequences whose last lines have different fitness classes
+    pub fitness_diverges: bool,
+    /// the reported optimum pays adj_demerits somewhere
+    pub best_pays_adj: bool,
+    /// the reported optimum breaks at a discretionary
+    pub best_uses_disc: bool,
+    /// the reported optimum has two consecutive hyphenated breaks (incl. the final-hyphen case)
+    pub best_consecutive_hyphens: bool,
+    /// largest |partial total| met on a feasible prefix (guards the awful_bad domain restriction)
+    pub max_abs_total: i64,
+}
+
+impl Oracle {
+    /// `threshold` is the pass's tolerance; §863 clamps it to `inf_bad`.
+    pub fn new(list: &[Node], params: &Params, widths: &[i64], tolerance: i64) -> Oracle {
+        let n = list.len();
+        let bps = breakpoints(list, params);
+        // prefix sums of act_width
+        let mut s = vec![W6::default(); n + 1];
+        for i in 0..n {
+            s[i + 1] = s[i];
+            let w = act_width_of(&list[i]);
+            s[i + 1].add(&w, 1);
+        }
+        // §827: background = left_skip + right_skip (+ emergency stretch in the last pass)
+        let mut background = W6::default();
+        background.add(&W6::of_glue(&params.left_skip), 1);
+        background.add(&W6::of_glue(&params.right_skip), 1);
+        background.st[0] += params.emergency_stretch;
+        // §837: the run of discardable nodes starting at j
+        let disc_run = |mut j: usize| -> W6 {
+            let mut d = W6::default();
+            while j < n {
+                match &list[j] {
+                    Node::Glue(g) => d.add(&W6::of_glue(g), 1),
+                    Node::Penalty(_) => {}
+                    Node::Math { w, .. } => d.w += w,
+                    Node::Kern { w, explicit: true } => d.w += w,
+                    _ => break,
+                }
+                j += 1;
+            }
+            d
+        };
+        // α(a): what is subtracted for a line that starts after break a
+        let alpha = |a: &Bp| -> W6 {
+            let mut al;
+            match &list[a.idx] {
+                Node::Disc { post, replace, .. } => {
+                    // §840: replaced nodes go, post-break material comes
+                    let after = a.idx + 1 + replace;
+                    al = s[after];
+                    for e in post {
+                        al.w -= e.disc_width();
+                    }
+                    if post.is_empty() {
+                        al.add(&disc_run(after), 1);
+                    }
+                }
+                _ => {
+                    al = s[a.idx];
+                    al.add(&disc_run(a.idx), 1);
+                }
+            }
+            al
+        };
+        // β(b): act_width when try_break is called at b (§869 adds disc_width for the call)
+        let beta = |b: &Bp| -> W6 {
+            let mut be = s[b.idx];
+            if b.idx < n {
+                if let Node::Disc { pre, .. } = &list[b.idx] {
+                    for e in pre {
+                        be.w += e.disc_width();
+                    }
+                }
+            }
+            be
+        };
+        let m = bps.len();
+        let mut meas = vec![vec![W6::default(); m]; m + 1];
+        for a in 0..=m {
+            let al = if a == 0 { W6::default() } else { alpha_guard(&bps[a - 1], n, &alpha) };
+            for b in 0..m {
+                if a > 0 && b < a {
+                    continue;
+                }
+                let mut l = background;
+                l.add(&beta(&bps[b]), 1);
+                l.add(&al, -1);
+                meas[a][b] = l;
+            }
+        }
+        Oracle { bps, meas, widths: widths.to_vec(), threshold: tolerance.min(arith::INF_BAD), params: params.clone(), n }
+    }
+
+    /// §850 without \parshape/\hangindent subtleties: the harness passes the widths line by line,
+    /// the last one repeats.
+    pub fn line_width(&self, line_no: usize) -> i64 {
+        self.widths[(line_no - 1).min(self.widths.len() - 1)]
+    }
+
+    /// §851-853: (badness, fitness class) of the line from `a` to `b` set as line `line_no`;
+    /// badness `inf_bad + 1` means overfull.
+    pub fn fit(&self, a: usize, b: usize, line_no: usize) -> (i64, u8) {
+        fit_of(&self.meas[a][b], self.line_width(line_no))
+    }
+
+    /// §859
+    pub fn demerits(&self, badness: i64, b: &Bp, prev_fit: u8, fit: u8, prev_hyph: bool) -> i64 {
+        demerits(&self.params, badness, b.penalty, prev_fit, fit, prev_hyph && b.hyph, b.idx == self.n)
+    }
+
+    /// The premise of the property: for every line start and every line number, "overfull" is
+    /// upward closed in the end of the line.
+    pub fn monotone(&self) -> bool {
+        let m = self.bps.len();
+        for a in 0..m {
+            for ln in 1..=self.widths.len() {
+                let mut seen_over = false;
+                for b in a..m {
+                    let over = self.fit(a, b, ln).0 > arith::INF_BAD;
+                    if seen_over && !over {
+                        return false;
+                    }
+                    seen_over |= over;
+                }
+            }
+        }
+        true
+    }
+
+    fn feasible(&self, badness: i64) -> bool {
+        badness <= arith::INF_BAD && badness <= self.threshold
+    }
+
+    /// Every sequence of legal breakpoints that contains all forced breaks and ends with the
+    /// final break, each line within the threshold.
+    pub fn brute(&self) -> Brute {
+        let mut out = Brute::default();
+        let mut fits_at = vec![0u8; self.bps.len()];
+        let mut seq: Vec<usize> = vec![];
+        let mut first_total: Option<i64> = None;
+        self.dfs(0, 1, DECENT, false, 0, &mut seq, &mut out, &mut fits_at, &mut first_total, Flags::default());
+        out.fitness_diverges = fits_at.iter().any(|m| m.count_ones() >= 2);
+        out
+    }
+
+    #[allow(clippy::too_many_arguments)]
+    fn dfs(&self, a: usize, line_no: usize, prev_fit: u8, prev_hyph: bool, total: i64, seq: &mut Vec<usize>, out: &mut Brute, fits_at: &mut [u8], first_total: &mut Option<i64>, flags: Flags) {
+        let m = self.bps.len();
+        for b in a..m {
+            let bp = &self.bps[b];
+            let forced = bp.penalty <= EJECT_PENALTY;
+            let (bad, fit) = self.fit(a, b, line_no);
+            if self.feasible(bad) {
+                let d = self.demerits(bad, bp, prev_fit, fit, prev_hyph);
+                let t = total + d;
+                out.max_abs_total = out.max_abs_total.max(t.abs());
+                fits_at[b] |= 1 << fit;
+                let mut fl = flags;
+                fl.pays_adj |= (fit as i64 - prev_fit as i64).abs() > 1;
+                fl.uses_disc |= bp.hyph && bp.idx < self.n;
+                fl.consecutive |= bp.hyph && prev_hyph;
+                seq.push(bp.idx);
+                if b + 1 == m {
+                    out.feasible += 1;
+                    let lines = seq.len();
+                    let e = out.per_count.entry(lines).or_insert(i64::MAX);
+                    if t < *e {
+                        *e = t;
+                    }
+                    match first_total {
+                        None => *first_total = Some(t),
+                        Some(f) if *f != t => out.totals_differ = true,
+                        _ => {}
+                    }
+                    match &out.best {
+                        Some((bt, _)) if *bt < t => {}
+                        Some((bt, _)) if *bt == t => out.best_ties += 1,
+                        _ => {
+                            out.best = Some((t, seq.clone()));
+                            out.best_ties = 1;
+                            out.best_pays_adj = fl.pays_adj;
+                            out.best_uses_disc = fl.uses_disc;
+                            out.best_consecutive_hyphens = fl.consecutive;
+                        }
+                    }
+                } else {
+                    self.dfs(b + 1, line_no + 1, fit, bp.hyph, t, seq, out, fits_at, first_total, fl);
+                }
+                seq.pop();
+            }
+            if forced {
+                break; // a forced break cannot be passed over (§851: pi = eject_penalty deactivates)
+            }
+        }
+    }
+
+    /// Total demerits of a given sequence of breaks (node indices, ending with `list.len()`), or
+    /// why it is not a feasible sequence.
+    pub fn eval(&self, breaks: &[usize]) -> Result<i64, String> {
+        let mut a = 0usize;
+        let (mut prev_fit, mut prev_hyph, mut total) = (DECENT, false, 0i64);
+        if breaks.last() != Some(&self.n) {
+            return Err(format!("the sequence does not end with the final break {}", self.n));
+        }
+        for (k, bi) in breaks.iter().enumerate() {
+            let Some(b) = (a..self.bps.len()).find(|b| self.bps[*b].idx == *bi) else {
+                return Err(format!("node {bi} is not a legal breakpoint after the previous break"));
+            };
+            // forced breaks between a and b must not be skipped
+            if let Some(f) = (a..b).find(|f| self.bps[*f].penalty <= EJECT_PENALTY) {
+                return Err(format!("the forced break at node {} is passed over", self.bps[f].idx));
+            }
+            let (bad, fit) = self.fit(a, b, k + 1);
+            if !self.feasible(bad) {
+                return Err(format!("line {} (ending at node {bi}) has badness {} > threshold {}", k + 1, if bad > arith::INF_BAD { "*".to_string() } else { bad.to_string() }, self.threshold));
+            }
+            total += self.demerits(bad, &self.bps[b], prev_fit, fit, prev_hyph);
+            prev_fit = fit;
+            prev_hyph = self.bps[b].hyph;
+            a = b + 1;
+        }
+        Ok(total)
+    }
+
+    /// Index into `meas`/`bps` space of a break given by node index: 0 for the paragraph start
+    /// (`None`), `k + 1` for `bps[k]`.
+    pub fn start_of(&self, node_idx: Option<usize>) -> Option<usize> {
+        match node_idx {
+            None => Some(0),
+            Some(i) => self.bps.iter().position(|b| b.idx == i).map(|k| k + 1),
+        }
+    }
+    pub fn bp_at(&self, node_idx: usize) -> Option<usize> {
+        self.bps.iter().position(|b| b.idx == node_idx)
+    }
+}
+
+fn alpha_guard(a: &Bp, n: usize, alpha: &dyn Fn(&Bp) -> W6) -> W6 {
+    // nothing starts after the final break
+    if a.idx >= n {
+        W6::default()
+    } else {
+        alpha(a)
+    }
+}
+
+#[derive(Clone, Copy, Default)]
+struct Flags {
+    pays_adj: bool,
+    uses_disc: bool,
+    consecutive: bool,
+}
+
+/// §851-853 for a line with measures `l` set to `line_width`.
+pub fn fit_of(l: &W6, line_width: i64) -> (i64, u8) {
+    let shortfall = line_width - l.w;
+    if shortfall > 0 {
+        // §852
+        if l.st[1] != 0 || l.st[2] != 0 || l.st[3] != 0 {
+            (0, DECENT)
+        } else {
+            let b = if shortfall > 7230584 && l.st[0] < 1663497 { arith::INF_BAD } else { arith::badness(shortfall, l.st[0]) };
+            (b, if b > 12 { if b > 99 { VERY_LOOSE } else { LOOSE } } else { DECENT })
+        }
+    } else {
+        // §853
+        let b = if -shortfall > l.sh { arith::INF_BAD + 1 } else { arith::badness(-shortfall, l.sh) };
+        (b, if b > 12 { TIGHT } else { DECENT })
+    }
+}
+
+/// §859. `both_hyph`: this break and the previous one are hyphenated; `last`: `cur_p = null`.
+pub fn demerits(p: &Params, badness: i64, pi: i64, prev_fit: u8, fit: u8, both_hyph: bool, last: bool) -> i64 {
+    let mut d = p.line_penalty + badness;
+    d = if d.abs() >= 10000 { 100000000 } else { d * d };
+    if pi != 0 {
+        if pi > 0 {
+            d += pi * pi;
+        } else if pi > EJECT_PENALTY {
+            d -= pi * pi;
+        }
+    }
+    if both_hyph {
+        if !last {
+            d += p.double_hyphen_demerits;
+        } else {
+            d += p.final_hyphen_demerits;
+        }
+    }
+    if (fit as i64 - prev_fit as i64).abs() > 1 {
+        d += p.adj_demerits;
+    }
+    d
+}
+
+/// §874-875: which number of lines TeX ends up with, given the minimal total demerits for every
+/// feasible number of lines. Returns (lines chosen, actual_looseness). With ties in demerits the
+/// first active node wins, and the active list is sorted by line number.
+pub fn looseness_choice(per_count: &std::collections::BTreeMap<usize, i64>, looseness: i64) -> Option<(usize, i64)> {
+    let min = *per_count.values().min()?;
+    let best_line = *per_count.iter().find(|(_, v)| **v == min)?.0 as i64;
+    if looseness == 0 {
+        return Some((best_line as usize, 0));
+    }
+    let mut actual = 0i64;
+    for l in per_count.keys() {
+        let line_diff = *l as i64 - best_line;
+        if (line_diff < actual && looseness <= line_diff) || (line_diff > actual && looseness >= line_diff) {
+            actual = line_diff;
+        }
+    }
+    Some(((best_line + actual) as usize, actual))
+}
+
+// ------------------------------------------------------------------- TFM metrics (self-validation)
+
+/// Width, height, depth in scaled points of every character of a TFM file at its design size:
+/// the sub-file layout of TFtoPL §8-11 and `store_scaled` of tex.web §571-572. Only used to bind
+/// the models above to the repository's TeX-recorded paragraphs (which are set in cmr10).
+pub fn tfm_metrics(b: &[u8]) -> Option<std::collections::BTreeMap<u8, (i64, i64, i64)>> {
+    let h = |i: usize| -> Option<usize> { Some(((*b.get(2 * i)? as usize) << 8) | *b.get(2 * i + 1)? as usize) };
+    let (lf, lh, bc, ec, nw, nh, nd) = (h(0)?, h(1)?, h(2)?, h(3)?, h(4)?, h(5)?, h(6)?);
+    if b.len() < 4 * lf || ec < bc || lh < 2 {
+        return None;
+    }
+    let word = |i: usize| -> Option<[u8; 4]> { Some([*b.get(4 * i)?, *b.get(4 * i + 1)?, *b.get(4 * i + 2)?, *b.get(4 * i + 3)?]) };
+    // §568: design size is header word 1, a fix_word; z := design size in scaled points
+    let ds = word(6 + 1)?;
+    let mut z: i64 = ((ds[0] as i64) << 24 | (ds[1] as i64) << 16 | (ds[2] as i64) << 8 | ds[3] as i64) >> 4; // §568: z*16 = fix_word, units of 2^-20 pt -> sp
+    if ds[0] >= 128 {
+        return None;
+    }
+    // §572: replace z by z' and compute alpha, beta
+    let mut alpha: i64 = 16;
+    while z >= 0o40000000 {
+        z /= 2;
+        alpha += alpha;
+    }
+    let beta = 256 / alpha;
+    let alpha = alpha * z;
+    // §571 store_scaled
+    let scaled = |w: [u8; 4]| -> Option<i64> {
+        let (a, bb, c, d) = (w[0] as i64, w[1] as i64, w[2] as i64, w[3] as i64);
+        let sw = (((d * z) / 0o400 + c * z) / 0o400 + bb * z) / beta;
+        match a {
+            0 => Some(sw),
+            255 => Some(sw - alpha),
+            _ => None,
+        }
+    };
+    let char_base = 6 + lh;
+    let width_base = char_base + (ec - bc + 1);
+    let height_base = width_base + nw;
+    let depth_base = height_base + nh;
+    let _ = nd;
+    let mut out = std::collections::BTreeMap::new();
+    for c in bc..=ec {
+        let ci = word(char_base + c - bc)?;
+        if ci[0] == 0 {
+            continue; // §554: width index 0 = the character does not exist
+        }
+        let w = scaled(word(width_base + ci[0] as usize)?)?;
+        let hh = scaled(word(height_base + (ci[1] >> 4) as usize)?)?;
+        let dd = scaled(word(depth_base + (ci[1] & 15) as usize)?)?;
+        out.insert(c as u8, (w, hh, dd));
+    }
+    Some(out)
+}
+
+#[cfg(test)]
+mod tests {
+    use super::*;
+    fn g(w: i64, st: i64, sto: usize, sh: i64, sho: usize) -> Node {
+        Node::Glue(GlueSpec { w, stretch: st, stretch_order: sto, shrink: sh, shrink_order: sho })
+    }
+    #[test]
+    fn hpack_orders() {
+        // fil stretch cancels: TeX falls back to the finite total
+        let l = [g(10, 5, 1, 0, 0), g(10, -5, 1, 0, 0), g(10, 4, 0, 0, 0)];
+        let p = hpack(&l, Pack::Additional(2));
+        assert_eq!((p.order, p.sign, p.set), (0, Sign::Stretching, Set::Ratio { num: 2, den: 4 }));
+        // overfull: ratio one, sign shrinking
+        let l = [Node::Char { w: 10, h: 1, d: 0 }, g(10, 0, 0, 3, 0)];
+        let p = hpack(&l, Pack::Exactly(10));
+        assert!(p.overfull);
+        assert_eq!((p.sign, p.set), (Sign::Shrinking, Set::One));
+        // no shrink at all: unset
+        let p = hpack(&[Node::Char { w: 10, h: 1, d: 0 }], Pack::Exactly(5));
+        assert_eq!((p.sign, p.overfull), (Sign::Normal, true));
+        // shifted box
+        let p = hpack(&[Node::Box { w: 1, h: 9, d: 3, shift: 4 }], Pack::Additional(0));
+        assert_eq!((p.height, p.depth), (5, 7));
+    }
+    #[test]
+    fn breakpoints_by_kind() {
+        let p = Params { line_penalty: 10, hyphen_penalty: 50, ex_hyphen_penalty: 50, adj_demerits: 10000, double_hyphen_demerits: 10000, final_hyphen_demerits: 5000, looseness: 0, left_skip: GlueSpec::default(), right_skip: GlueSpec::default(), emergency_stretch: 0 };
+        let c = Node::Char { w: 5, h: 0, d: 0 };
+        let l = vec![g(1, 0, 0, 0, 0), c.clone(), g(1, 0, 0, 0, 0), g(1, 0, 0, 0, 0), Node::Kern { w: 1, explicit: true }, g(1, 0, 0, 0, 0), Node::Penalty(10000), Node::Penalty(-20000)];
+        let b: Vec<usize> = breakpoints(&l, &p).iter().map(|b| b.idx).collect();
+        assert_eq!(b, vec![2, 4, 7, 8]);
+    }
+}
